@@ -6,6 +6,7 @@
 //! result lines (hex numbers) are written.
 
 mod asm;
+mod cmd;
 mod util;
 mod vm;
 
@@ -35,6 +36,7 @@ fn main() {
             "C02" => vm::run_c02(&nums),
             "C03" => vm::run_c03(&nums),
             "ASM" => asm::run_asm(&nums),
+            "C14" => cmd::run_c14(&nums),
             other => panic!("unknown case kind {other}"),
         };
         writeln!(output, "# {kind}").unwrap();
